@@ -20,7 +20,11 @@ CFLAGS = ["-std=c11", "-g", "-O0", "-fsanitize=address,undefined", "-fno-sanitiz
           "-Werror=discarded-qualifiers"]
 
 
+C_PROFILE = dict(opt_owned=True)
+
+
 def make_program(seed, idx, profile=None, ncalls=40, **genkw):
+    profile = dict(C_PROFILE, **(profile or {}))
     rng = random.Random("prog/%s/%s" % (seed, idx))
     g = spec.Gen(rng, profile=profile, name="p%d" % idx, **genkw)
     prog = g.program()
@@ -84,6 +88,7 @@ def run_c_program(seed, idx, tag, profile=None, ncalls=40, valgrind=False, keep=
     rc, out, err = run([exe], env=ASAN_ENV, timeout=120, cwd=d)
     got = out.splitlines()
     res["observed_events"] = len(got)
+    res["observed_lines"] = got
     reps = sanitizer_blocks(err)
     diff = first_diff(sc.expected + ["END"], got)
     if rc == -999:
@@ -157,7 +162,7 @@ def ty_productions(prog, t, pos, out):
     elif k == "slice":
         out["%s:%sslice:%s%s" % (pos, "&mut " if t[2] else "&", t[1], ":static" if t[3] == "static" else "")] += 1
     elif k == "oslice":
-        out[pos + ":Box<[T]>"] += 1
+        out[pos + ":Box<[T]>:" + t[1]] += 1
     elif k == "str":
         out["%s:&str:%s%s" % (pos, t[1], ":static" if t[2] == "static" else "")] += 1
     elif k == "ostr":
@@ -219,3 +224,78 @@ def quota_gaps(prods, required):
         if not any(k.startswith(r) and v > 0 for k, v in prods.items()):
             gaps.append(r)
     return gaps
+
+
+# --------------------------------------------------------------------------
+# C03 leg: ownership conservation over generated APIs
+# --------------------------------------------------------------------------
+
+def conservation(lines):
+    """Independent offline checker over the observed event log: every NEW id is DROPped exactly once,
+    nothing refers to an id after its DROP, every callback with a destructor is released exactly once."""
+    errs = []
+    born, dead = {}, {}
+    cb_seen, cb_dropped = set(), {}
+    for i, l in enumerate(lines):
+        if l.startswith("NEW "):
+            ident = l[4:]
+            if ident in born:
+                errs.append("line %d: %s created twice" % (i, ident))
+            born[ident] = i
+        elif l.startswith("DROP "):
+            ident = l[5:]
+            if ident not in born:
+                errs.append("line %d: %s dropped but never created" % (i, ident))
+            if ident in dead:
+                errs.append("line %d: %s dropped twice (first at line %d)" % (i, ident, dead[ident]))
+            dead[ident] = i
+        elif l.startswith("CBDROP "):
+            k = l[7:]
+            cb_dropped[k] = cb_dropped.get(k, 0) + 1
+            if cb_dropped[k] > 1:
+                errs.append("line %d: callback %s destructor ran %d times" % (i, k, cb_dropped[k]))
+        elif l.startswith(("CALL ", "RET ")):
+            for tok in re.findall(r"#(\d+)", l.split(" ", 2)[2] if l.count(" ") >= 2 else ""):
+                hits = [d for d in dead if d.endswith("#" + tok)]
+                for d in hits:
+                    errs.append("line %d: %s refers to %s after its DROP at line %d" % (i, l.split(" ")[1], d, dead[d]))
+    for ident in born:
+        if ident not in dead:
+            errs.append("%s never dropped (leak)" % ident)
+    return errs, len(born), len(cb_dropped)
+
+
+def c03_leg(chk, tier, seed):
+    thorough = tier == "thorough"
+    nprog = 600 if thorough else 70
+    toolrun.anchor()
+    prof = dict(out_structs=True, owned_slices=True, callbacks=True, opt_owned=True)
+
+    def one(i):
+        r = run_c_program(seed + 7000, i, "c03", profile=prof, ncalls=45, valgrind=(i < (60 if thorough else 4)), keep=False)
+        return r
+    results = pmap(one, range(nprog))
+    stats = {"programs": 0, "calls": 0, "objects_tracked": 0, "callbacks_released": 0, "skipped": 0}
+    hist = set()
+    for r in results:
+        if r["status"] == "skip":
+            stats["skipped"] += 1
+            continue
+        if r["status"] == "inconclusive":
+            chk.inconc("api p%d: %s" % (r["idx"], r.get("detail")))
+            continue
+        stats["programs"] += 1
+        stats["calls"] += r["calls"]
+        got = r.get("observed_lines") or []
+        errs, nobj, ncb = conservation(got)
+        stats["objects_tracked"] += nobj
+        stats["callbacks_released"] += ncb
+        hist.add("".join({"C": "c", "N": "n", "D": "d", "R": "r"}.get(l[:1], "") for l in got if l[:4] in ("CALL", "NEW ", "DROP", "CBDR")))
+        mem = [x for x in (r.get("reports") or []) if any(w in x for w in ("double-free", "use-after", "overflow", "leak", "free", "Invalid", "bytes in", "bad-free", "alloc-dealloc"))]
+        if errs or mem:
+            chk.violation("api-p%d" % r["idx"], "generated-API history p%d: %s" % (r["idx"], (errs + mem)[0]),
+                          dict(witness(r), conservation_errors=errs[:10], memory_reports=mem))
+        elif r["status"] == "violation" and r.get("stage") == "run" and (r.get("rc") not in (0, None)) and not r.get("diff"):
+            chk.violation("api-p%d" % r["idx"], "driver p%d aborted: %s" % (r["idx"], str(r.get("reports"))[:200]), witness(r))
+    stats["distinct_histories"] = len(hist)
+    return stats
